@@ -115,6 +115,8 @@ func monitor(c hxlib.Case, outs []string) (vs []hxlib.Violation) {
 		switch f[0] {
 		case "hang":
 			add(i, "hang", "the scenario did not finish within the time limit (deadlock or lost report)")
+		case "crash":
+			add(i, "crash", "the process running the module system died during the scenario (fatal error or unrecovered panic)")
 		case "en", "dis":
 			if len(f) == 3 {
 				if m, err := strconv.Atoi(f[1]); err == nil && valid(m) {
